@@ -1,4 +1,30 @@
-/* ASSUMED contract of  Math::real GeodesicLineExact::GenPosition(...) const  when reached by delegation from
- * GeodesicLine::GenPosition (exact = true).  Frame only: it may write any of its eight outputs. */
-/*@ clause frame src=assumed */
-__CPROVER_assigns(*lat2, *lon2, *azi2, *s12, *m12, *M12, *M21, *S12)
+/* Contract of  Math::real GeodesicLineExact::GenPosition(bool arcmode, real s12_a12, unsigned outmask, real& lat2, real& lon2,
+ *                real& azi2, real& s12, real& m12, real& M12, real& M21, real& S12) const      (src/GeodesicLineExact.cpp)
+ * Source and clauses: as GeodesicLine_GenPosition.c (C12 frame over all masks and capabilities, NaN rule; C01 ranges; C14).
+ * The elliptic-function object and the area series are assumed callee contracts (frame only). */
+/*@ ghost */
+#define GPX_CAN (self->_caps != 0U && (arcmode || (self->_caps & (0xFF80U & DISTANCE_IN)) != 0U))
+#define GPX_ON(bit) (GPX_CAN && (outmask & self->_caps & 0xFF80U & (bit)) != 0U)
+/*@ clause pre.line_invariant src=LineInit */
+__CPROVER_requires(self->_f1 > 0.0 && !isinf(self->_f1) && self->tiny_ > 0.0 &&
+                   self->_nC4 >= 0 && self->_cC4a.n == self->_nC4 && (self->_nC4 == 0 || __CPROVER_r_ok(self->_cC4a.p, (size_t)self->_nC4 * sizeof(double))))
+/*@ clause frame src=property props=C12,C14 */
+__CPROVER_assigns(GPX_ON(LATITUDE): *lat2; GPX_ON(LONGITUDE): *lon2; GPX_ON(AZIMUTH): *azi2; GPX_ON(DISTANCE): *s12;
+                  GPX_ON(REDUCEDLENGTH): *m12; GPX_ON(GEODESICSCALE): *M12; GPX_ON(GEODESICSCALE): *M21; GPX_ON(AREA): *S12)
+/*@ clause post.nan_if_cannot src=property props=C12,C13 */
+__CPROVER_ensures(GPX_CAN || isnan(__CPROVER_return_value))
+/*@ clause post.arc_returned src=header props=C12 */
+__CPROVER_ensures(!GPX_CAN || !arcmode || VERIF_SAME_D(__CPROVER_return_value, s12_a12))
+/*@ clause post.distance_passthrough src=header props=C12 */
+__CPROVER_ensures(!GPX_ON(DISTANCE) || arcmode || VERIF_SAME_D(*s12, s12_a12))
+/*@ clause post.azimuth_range src=property props=C01 */
+__CPROVER_ensures(!GPX_ON(AZIMUTH) || isnan(*azi2) || (-180.0 <= *azi2 && *azi2 <= 180.0))
+/*@ clause post.latitude_range src=property props=C01 */
+__CPROVER_ensures(!GPX_ON(LATITUDE) || isnan(*lat2) || (-90.0 <= *lat2 && *lat2 <= 90.0))
+/*@ clause post.longitude_range src=property props=C01 */
+__CPROVER_ensures(!GPX_ON(LONGITUDE) || (outmask & LONG_UNROLL) != 0U || isnan(*lon2) || (-180.0 <= *lon2 && *lon2 <= 180.0))
+/*@ harness-pre */
+  /* the area-series coefficients live in a std::vector (R17: pointer + length); this function only passes them on to DST::integral */
+  double c4_[64]; for (int i_ = 0; i_ < 64; ++i_) c4_[i_] = nondet_double();
+  in_self._cC4a.p = c4_;
+  __CPROVER_assume(in_self._nC4 >= 0 && in_self._nC4 <= 64 && in_self._cC4a.n == in_self._nC4);
